@@ -270,3 +270,73 @@ ASSUMPTIONS = [
     "RandomState draws: uninterpreted functions of (seed, history); an unconstrained seed term stands for an arbitrary generator state",
     "violations are reported only from pre='fresh' runs; a counterexample from a symbolic pre-state is a candidate only",
 ]
+
+
+# ------------------------------------------------------------------ the configured budget reaches the budget manager
+def sc_budget_plumbing(d, name, via):
+    """every stream strategy enforces ITS budget: after the first query (or update) the budget manager it created
+    carries the budget given to the strategy (symbolic, in (0, 1])"""
+    import skactiveml.stream as st
+    from harness import density as dn
+    from harness.C03 import STRATS
+    if name == "StreamProbabilisticAL":
+        B = 0.03125         # (its quantile filter needs a concrete budget in the model)
+    else:
+        B = d.fl("budget", lo=0.0, hi=1.0)
+        if d.sym:
+            d.c.assume(core.s_lt(0, B))
+        elif B <= 0:
+            B = 0.03125
+    seed = d.integer("seed", 0, 2 ** 31 - 2)
+    if name in STRATS:
+        spec = STRATS[name]
+        qs = getattr(st, spec.get("cls", name))(budget=B, random_state=seed, **spec["kw"])
+        needs_clf = spec["clf"]
+    elif name == "StreamProbabilisticAL":
+        from harness import spal
+        qs = st.StreamProbabilisticAL(budget=B, random_state=seed)
+        needs_clf = "freq"
+    else:
+        qs = dn._make(d, name, B, seed)
+        needs_clf = True
+    ch = d.arr([[d.fl("x0", lo=-4.0, hi=4.0)]], shape=(1, 1))
+    if via == "query":
+        if needs_clf == "freq":
+            from harness import spal
+            qs.query(ch.copy(), spal._freq_classifier(d))
+        elif needs_clf:
+            qs.query(ch.copy(), dn._clf(d))
+        else:
+            qs.query(ch.copy())
+    else:
+        kw = {"budget_manager_param_dict": {"utilities": d.arr([0.5])}} if name == "StreamProbabilisticAL" else {}
+        qs.update(ch.copy(), d.arr([], dtype=int), **kw)
+    bm = getattr(qs, "budget_manager_", None)
+    if bm is None:
+        got = getattr(qs, "budget_", None)          # the baselines keep the budget themselves
+        d.prove(got is not None and d.eq(got, B), "strategy_enforces_configured_budget", info=dict(where="strategy.budget_"))
+    else:
+        got = getattr(bm, "budget_", None)
+        if got is None:
+            got = bm.budget
+        d.prove(got is not None and d.eq(got, B), "budget_manager_carries_configured_budget",
+                info=dict(manager=type(bm).__name__, got=repr(got)[:40]))
+    d.witness(True, "ran")
+
+
+from harness.common import dual_harness  # noqa: E402
+
+
+def _plumbing_cfg(tier):
+    from harness import density as dn
+    from harness.C03 import STRATS
+    names = list(STRATS) + list(dn.NAMES) + ["StreamProbabilisticAL"]
+    return [dict(name=n, via=v) for n in names for v in ("query", "update")]
+
+
+HARNESSES.append(dual_harness(
+    "budget_plumbing", sc_budget_plumbing, _plumbing_cfg,
+    ["skactiveml.utils._validation:check_budget_manager", "skactiveml.base:BudgetManager._validate_budget",
+     "skactiveml.stream._uncertainty_zliobaite:UncertaintyZliobaite._validate_data",
+     "skactiveml.stream._stream_baselines:StreamRandomSampling._validate_data"],
+    required_witnesses=("ran",)))
